@@ -322,6 +322,34 @@ def mixed_scheme_case(rng, res):
                                   "impl": i_cmp, "expected": want})
 
 
+def unreadable_case(rng, res, scheme=""):
+    """A regular file that exists and cannot be read (an I/O error on read: here a link to /proc/self/mem, which fails for
+    every user): the recording fails - it does not succeed without the file."""
+    if not os.path.exists("/proc/self/mem"):
+        return
+    tree = {"a.txt": ("f", b"a\n"), "sub": ("d", {"b.txt": ("f", b"b\n")})}
+    where = rng.choice(["", "sub/"])
+    name = where + rng.choice(["core.bin", "zz-last", "0-first"])
+    starts = rng.choice([["."], ["a.txt", "sub", name] if not where else ["a.txt", "sub"], [name]])
+    if scheme == "dir:":
+        starts = ["dir:."] if False else ["dir:top"]
+    d = tempfile.mkdtemp(prefix="verif-c10u-")
+    try:
+        root = os.path.join(d, "top") if scheme == "dir:" else d
+        T.materialise(tree, root)
+        os.symlink("/proc/self/mem", os.path.join(root, name))
+        i = impl_record(d, None, starts, [], rng.random() < 0.5, False, None, False)
+    finally:
+        shutil.rmtree(d, ignore_errors=True)
+    case = {"op": "record_unreadable_file", "starts": starts, "unreadable": name}
+    ok = "err" in i or any(k == name or k.endswith("/" + name) for k, _v in i.get("ok", []))
+    res.case(dict(case, outcome=i.get("err") or "recorded"), True, ok, sample_cap=1)
+    res.count("unreadable_file")
+    if not ok:
+        res.fail("oracle", case, {"why": "a regular file that exists and cannot be read was silently left out of the recording",
+                                  "impl": i})
+
+
 def shard(seed, idx, n, tier):
     res = core.Result()
     rng = core.rng_for(seed, "c10", idx)
@@ -329,6 +357,7 @@ def shard(seed, idx, n, tier):
         one_case(rng, res)
     for _ in range(3):
         mixed_scheme_case(rng, res)
+    unreadable_case(rng, res)
     return res
 
 
